@@ -11,7 +11,7 @@ Inductive edit_op :=
 Inductive case :=
 (** Parse(s): members (None = error); String() of the result split at ',';
     Parse(String()); Parse of every ','-piece of s on its own (only when the
-    whole parse succeeded); ext: 0 = Extract left the context unchanged,
+    whole parse succeeded; [] = not observed); ext: 0 = Extract left the context unchanged,
     1 = extracted baggage equals Parse's result, 2 = differs. *)
 | CParse (s : bytes) (o : option (list member)) (pieces_out : list bytes)
          (re : option (list member)) (per : list (option member)) (ext : N)
@@ -31,7 +31,15 @@ Inductive case :=
     po = Parse(hdr) as observed (None = error / no header), res = members of the baggage in the
     returned context, same = the returned context is the parent context itself. *)
 | CExtractInto (parent : list member) (hdr : option bytes) (po : option (list member))
-               (res : list member) (same : bool).
+               (res : list member) (same : bool)
+(** New on ALL inputs, the ones NewMemberRaw rejected passed as the zero Member (hasData = false) *)
+| CNewZero (ms : list member) (acc : list bool) (ok : bool)
+(** NewMember(k, v, props...) with a percent-encoded value: the member built (None = error) *)
+| CCtorProps (k v : bytes) (ps : list property) (om : option member)
+(** bm = members of Parse(hdr); Inject into a carrier that already holds [old] under "baggage"
+    (None = fresh carrier); after = the carrier's header split at ',' (None = no header); ext = Extract of it *)
+| CInject (hdr : bytes) (bm : list member) (old : option bytes) (after : option (list bytes))
+          (ext : option (list member)).
 
 Definition flag (b : bool) (code : N) : list N := if b then [] else [code].
 
@@ -89,7 +97,7 @@ Definition parse_mismatch (s : bytes) (o : option (list member)) (pieces_out : l
   | Some b =>
       perm_eqb (member_strings b) pieces_out &&
       omap_eqb (parse (baggage_string b)) re &&
-      list_eqb (option_eqb member_eqb) (model_per s) per &&
+      (is_nil per || list_eqb (option_eqb member_eqb) (model_per s) per) &&
       (ext =? match extract (Some s) with None => 0 | Some _ => 1 end)
   end.
 
@@ -99,9 +107,12 @@ Definition parse_spec (s : bytes) (b : list member) (per : list (option member))
   header_within_limits s && (blen b <=? LIMIT_MEMBERS) &&
   match s with
   | [] => is_nil b && (ext =? 0)
-  | _ => match all_some per with
-         | Some ms => map_eqb b (dedup_last ms)
-         | None => false
+  | _ => match per with
+         | [] => true     (* not observed (large inputs with few list-members) *)
+         | _ => match all_some per with
+                | Some ms => map_eqb b (dedup_last ms)
+                | None => false
+                end
          end && (ext =? 1)
   end.
 
@@ -242,10 +253,6 @@ Definition check_case (c : case) : list N :=
           flag (parse_spec s b per ext) V_SPECFAIL ++
           (if reparse_spec b re then []
            else if known2 b pieces_out re then [V_KNOWN 2] else [V_SPECFAIL])
-      end ++
-      match parse s with
-      | Some b => flag (parse_spec s b (model_per s) (match s with [] => 0 | _ => 1 end)) V_MODELSPEC
-      | None => []
       end
   | CRound ms acc nb pieces_out re ext =>
       flag (round_mismatch ms acc nb pieces_out re ext) V_MISMATCH ++
@@ -262,6 +269,35 @@ Definition check_case (c : case) : list N :=
   | CCtor k v om op =>
       flag (ctor_mismatch k v om op) V_MISMATCH ++
       flag (ctor_spec k v om op) V_SPECFAIL
+  | CNewZero ms acc ok =>
+      let made := map (fun m => new_member_raw (key_of m) (value_of m) (props_of m)) ms in
+      flag (list_eqb Bool.eqb (map (fun o => is_some o) made) acc && Bool.eqb (is_some (new made)) ok) V_MISMATCH ++
+      (* New refuses a zero (invalid) Member *)
+      flag (implb (existsb negb acc) (negb ok)) V_SPECFAIL
+  | CCtorProps k v ps om =>
+      flag (option_eqb member_eqb (new_member k v ps) om) V_MISMATCH ++
+      flag (match om with
+            | Some m => token k && bytes_eqb (key_of m) k && utf8_b (value_of m) &&
+                        list_eqb prop_eqb (props_of m) ps
+            | None => true
+            end) V_SPECFAIL
+  | CInject hdr bm old after ext =>
+      flag (match parse hdr with
+            | None => false
+            | Some b =>
+                map_eqb b bm &&
+                match inject b, after with
+                | Some _, Some ps => perm_eqb (member_strings b) ps && omap_eqb (parse (baggage_string b)) ext
+                | None, _ => option_eqb (list_eqb bytes_eqb) (match old with Some o => Some (pieces 44 o) | None => None end) after
+                | _, _ => false
+                end
+            end) V_MISMATCH ++
+      (* a non-empty baggage whose header is within the limits replaces whatever the carrier held and extracts to itself *)
+      flag (match bm, after with
+            | _ :: _, Some ps => if out_within_limits ps then reparse_spec bm ext else true   (* modulo Spec.norm *)
+            | _ :: _, None => false
+            | [], _ => true
+            end) V_SPECFAIL
   | CExtractInto parent hdr po res same =>
       flag (let '(b, unchanged) := extract_into parent hdr in
             map_eqb b res && Bool.eqb unchanged same &&
